@@ -71,6 +71,8 @@ func searchFieldName(p *thrift.BinaryProtocol, id string, f *thrift.FieldDescrip
 	// if _, err := p.ReadStructBegin(); err != nil {
 	// 	return 0, start, wrapError(meta.ErrReadInput, "", err)
 	// }
+	// a missing field is inserted at the beginning of THIS struct
+	start = p.Read
 	for {
 		_, t, i, err := p.ReadFieldBegin()
 		if err != nil {
